@@ -759,6 +759,17 @@ def observe(spec: Dict[str, Any], mode: str, variant: str = "run", fault: Option
     OBS.fault = {}
     uni.dispose()
     out["expect"] = expect or {}
+    if out["expect"].get("equals_sync") and out["status"] == "ok" and variant == "run":
+        # the tables of this run against the result of the same request computed in SYNC mode by a fresh session (C06)
+        from harness.c01 import canon_result
+        try:
+            uni2 = Universe(spec, Listener())
+            batch = canon_result(uni2.prepare().run(parallelization_modes={ParallelizationMode.SYNC}))
+            uni2.dispose()
+            out["mode_vs_sync"] = None if canon_result(out.get("result") or []) == batch else \
+                "the result tables differ from the SYNC result of the same request"
+        except Exception as e:  # noqa: BLE001
+            out["mode_vs_sync"] = f"could not compare with the SYNC result: {type(e).__name__}: {str(e)[:120]}"
     if out["expect"].get("stream_equals_batch") and out["status"] == "ok":
         # the streamed tables against the batch result of the same request computed in SYNC mode by a fresh session
         from harness.c01 import canon_result
@@ -1151,6 +1162,8 @@ def judge(ob: Dict[str, Any], h: Dict[str, Any]) -> List[str]:
         bad.append(f"the consumer received {h['received']} item(s) instead of {exp['all_items']}")
     if exp.get("stream_equals_batch") and ob.get("stream_vs_batch"):
         bad.append(ob["stream_vs_batch"])
+    if exp.get("equals_sync") and ob.get("mode_vs_sync"):
+        bad.append(ob["mode_vs_sync"])
     return bad
 
 
@@ -1261,7 +1274,7 @@ def special_case(name: str) -> List[Dict[str, Any]]:
     elif name == "requeue":
         rspec, rdel = spec_requeue_timeout()
         for attempt in range(2):
-            dg, _ = observe_digest(rspec, "M", "run", None, rdel, expect={"ok": True, "requeue_timeout": True}, timeout=60.0)
+            dg, _ = observe_digest(rspec, "M", "run", None, rdel, expect={"ok": True, "requeue_timeout": True, "equals_sync": True}, timeout=60.0)
             # a run that succeeded WITHOUT the put-back + timeout (the machine stalled for seconds) shows nothing: observe once more
             if "observe_error" in dg or dg["case"]["status"] != "ok" or dg["requeue_then_timeout"]:
                 break
@@ -1290,6 +1303,26 @@ def slow_consumer_case(pause_s: float, rep_prefix: str = "C13") -> List[str]:
         probs.append(f"the observed history (outcome {dg['exit']}, {dg['received']} item(s) received) is not a trace of Model/Worker.v: "
                      + _diagnose(rep_prefix, dg["term"]) + " -- history: " + "; ".join(dg["case"]["history"])[:1200])
     return probs
+
+
+def spawn_requeue_case(tag: str = "C06") -> Any:
+    """For C06: start the put-back-result-across-a-timed-out-wait witness (MULTIPROCESSING, ~12 s, mostly sleeping) in its own
+    interpreter; collect with requeue_case_result() at the end of the check."""
+    return _spawn_special(["requeue"], tag)
+
+
+def requeue_case_result(procs: Any, rep_prefix: str = "C06") -> Tuple[List[str], Dict[str, Any]]:
+    """Problems of the witness started by spawn_requeue_case (empty = fine): the MULTIPROCESSING run must end, succeed, return the
+    tables of the SYNC run, leave nothing behind, and its observed history must be a trace of Model/Worker.v."""
+    dg = _collect_special(procs, 150.0)[0]
+    if "observe_error" in dg:
+        return [dg["observe_error"]], dg.get("case", {})
+    probs = [j for j in dg["judge"] if "did not exercise what it was built for" not in j]
+    bad, _ = vlib.run_cases(rep_prefix, "worker_proto_requeue", REQ, "chk_proto", [dg["term"]], case_type="pcase")
+    if bad:
+        probs.append(f"the observed history (outcome {dg['exit']}) is not a trace of Model/Worker.v: " + _diagnose(rep_prefix, dg["term"])
+                     + " -- history: " + "; ".join(dg["case"]["history"])[:1200])
+    return probs, {**dg["case"], "exercised": bool(dg.get("requeue_then_timeout"))}
 
 
 def _spawn_special(names: List[str], tag: str) -> List[Tuple[str, Any, str]]:
